@@ -289,7 +289,8 @@ impl<'a> Scanner<'a> {
                                 "i64" if n <= i64::MAX as u64 => {
                                     TokenEnum::SignedNum(n as i64, SignedNumType::I64)
                                 }
-                                "usize" if n <= usize::MAX as u64 => {
+                                // usize has 32 bits in circuits (UnsignedNumType::Usize.max())
+                                "usize" if n <= u32::MAX as u64 => {
                                     TokenEnum::UnsignedNum(n, UnsignedNumType::Usize)
                                 }
                                 "u8" if n <= u8::MAX as u64 => {
